@@ -38,6 +38,14 @@ profile. They exist because seeded changes of round 2 needed them to manifest (D
  p_provided_name_is_module  a name that is both a real module and provided by a build-dependency module; a third module depends on the name
  p_download_with_srcdir  a downloaded module with an explicit `srcdir:` (the download goes there, and so does its tag file)
  p_task_killed        a task command that is killed by a signal (stand-in sh: `KILLME`), with or without `ignore_ctrl_c: true`: a failed command
+ round 6:
+ p_no_link_rule_builder  a builder whose context chain has no LINK rule (an env-less root of its own), with an app that has no sources
+ p_cli_define_builtin    `-D` of one of laze's own variables (build-dir, builder, app, outfile, project-root, relpath, root, srcdir, modules, contexts)
+ p_varopts_from_chain    a `from:` option whose source only exists as the product of another `from:` option (rejected, identically in every run)
+ p_defaults_other_kind_below  `defaults: app:` (block/allow lists, context) inherited through subdirs, with a file below whose `defaults:` has
+                      only the OTHER kind (`module:`), and an app in or below that file (and the mirror image)
+ p_varopts_on_builtin    var_options on the built-in list `modules` / `contexts`, directly or through `from:`
+ p_empty_patch_list      a download with `patches: []`
  p_subdirs_later_doc  a multi-document file listing a sub-directory from a document that is not the first, with different defaults
 """
 import copy, random
@@ -576,6 +584,125 @@ def task_killed(p, rng):
         t["cmd"].append("after-the-killed-one ${app}")
 
 
+def no_link_rule_builder(p, rng):
+    root = _root(p)
+    if "contexts" not in root or "builders" not in root:
+        return
+    root["contexts"].append({"name": "nolink", "parent": None} if False else {"name": "nolink_root_env", "parent": "default"})
+    # a second root is not possible (every context descends from default); instead: a builder under `default` whose LINK rule is
+    # taken away is not expressible either — so the app is sourceless and the builder chain's LINK rule is removed from default when
+    # default defines it alone
+    dflt = next((c for c in root["contexts"] if c.get("name") == "default"), None)
+    root["contexts"] = [c for c in root["contexts"] if c.get("name") != "nolink_root_env"]
+    if dflt is None or not isinstance(dflt.get("rules"), list):
+        return
+    link = [r for r in dflt["rules"] if r.get("name") == "LINK"]
+    if not link:
+        return
+    # move LINK from default into every existing child of default, so that a NEW builder directly under default has none
+    dflt["rules"] = [r for r in dflt["rules"] if r.get("name") != "LINK"]
+    for c in root["contexts"] + root["builders"]:
+        if c is not dflt and c.get("parent", "default") == "default":
+            c["rules"] = list(c.get("rules") or []) + [dict(link[0])]
+    root["builders"].append({"name": "nlb", "parent": "default", "tasks": {"maint": {"cmd": ["echo maint ${app}"], "build": False}}})
+    root.setdefault("apps", []).append({"name": "nlbapp"} if rng.random() < 0.6 else {"name": "nlbapp", "sources": [{"nosuchguard": ["never.c"]}]})
+    a = p.setdefault("args", {})
+    if a.get("builders") is not None:
+        a["builders"] = list(a["builders"]) + ["nlb"]
+    if a.get("apps") is not None:
+        a["apps"] = list(a["apps"]) + ["nlbapp"]
+
+
+def cli_define_builtin(p, rng):
+    a = p.setdefault("args", {})
+    var = rng.choice(["build-dir", "build-dir", "builder", "app", "outfile", "project-root", "relpath", "root", "srcdir", "modules", "contexts", "bindir"])
+    a["define"] = list(a.get("define") or []) + [var + rng.choice(["=", "=", "+="]) + rng.choice(["artifacts", "x/y", "zz"])]
+
+
+def varopts_from_chain(p, rng):
+    root = _root(p)
+    blds = root.get("builders") or []
+    if not blds:
+        return
+    b = rng.choice(blds)
+    vo = b.setdefault("var_options", {})
+    if not isinstance(vo, dict):
+        return
+    vo["CHAIN_A"] = {"from": "CFLAGS", "prefix": "-A"}
+    vo["CHAIN_B"] = {"from": "CHAIN_A", "prefix": "-B"}
+    if rng.random() < 0.5:
+        vo["CHAIN_C"] = {"from": "CHAIN_B", "joiner": ","}
+    env = b.setdefault("env", {})
+    if isinstance(env, dict):
+        env.setdefault("CFLAGS", ["x", "y"])
+
+
+def defaults_other_kind_below(p, rng):
+    docs = p["files"]["laze-project.yml"]
+    root = docs[0]
+    names = [c["name"] for c in (root.get("contexts") or []) + (root.get("builders") or []) if c.get("name")]
+    kind, other = rng.choice([("app", "module"), ("app", "module"), ("module", "app")])
+    d1 = "dok%d" % rng.randint(0, 9)
+    inherited = {"env": {"local": {"DEFS": ["-DINHERITED_%s" % kind.upper()]}}}
+    if kind == "app":
+        inherited[rng.choice(["blocklist", "allowlist"])] = [rng.choice(names or ["default"])]
+    else:
+        inherited["uses"] = []
+        inherited["sources"] = ["inh_common.c"]
+    p["files"][d1 + "/laze.yml"] = [{"defaults": {kind: inherited}, "subdirs": ["lower"]}]
+    below = {"defaults": {other: {"env": {"local": {"LIBS": ["-lother"]}}}}}
+    if rng.random() < 0.3:
+        below["defaults"] = {}
+    key = "apps" if kind == "app" else "modules"
+    below[key] = [{"name": d1 + "_x", "sources": [d1 + "_x.c"]}]
+    if rng.random() < 0.5:
+        below["subdirs"] = ["deeper"]
+        p["files"][d1 + "/lower/deeper/laze.yml"] = [{key: [{"name": d1 + "_y", "sources": [d1 + "_y.c"]}]}]
+    p["files"][d1 + "/lower/laze.yml"] = [below]
+    root["subdirs"] = list(root.get("subdirs") or []) + [d1]
+    a = p.setdefault("args", {})
+    if kind == "app" and a.get("apps") is not None:
+        a["apps"] = list(a["apps"]) + [d1 + "_x"]
+    if kind == "module":
+        for k, ap, pa, dd in list(_modules(p, ("apps",)))[:2]:
+            kk = "selects" if "selects" in ap or "depends" not in ap else "depends"
+            ap[kk] = ["?" + d1 + "_x", "?" + d1 + "_y"] + list(ap.get(kk) or [])
+
+
+def varopts_on_builtin(p, rng):
+    root = _root(p)
+    blds = (root.get("builders") or []) + [c for c in (root.get("contexts") or []) if c.get("name") == "default"]
+    if not blds:
+        return
+    b = rng.choice(blds)
+    vo = b.setdefault("var_options", {})
+    if not isinstance(vo, dict):
+        return
+    which = rng.choice(["modules", "contexts"])
+    if rng.random() < 0.5:
+        vo[which] = {"prefix": "-DM_", "suffix": "=1", "joiner": rng.choice([" ", ","])}
+    else:
+        vo["MODDEFS"] = {"from": which, "prefix": "-DM_", "suffix": "=1"}
+        dflt = next((c for c in root.get("contexts") or [] if c.get("name") == "default"), None)
+        if dflt and isinstance(dflt.get("rules"), list):
+            for r in dflt["rules"]:
+                if r.get("name") == "LINK":
+                    r["cmd"] = r["cmd"] + " ${MODDEFS}"
+
+
+def empty_patch_list(p, rng):
+    root = _root(p)
+    dflt = next((c for c in root.get("contexts") or [] if c.get("name") == "default"), None)
+    if dflt is None or not any(r.get("name") == "GIT_DOWNLOAD" for r in dflt.get("rules") or []):
+        return
+    mods = root.setdefault("modules", [])
+    mods.append({"name": "epl", "download": {"git": {"url": "https://example.invalid/epl.git", "commit": "0123abcd"}, "patches": []}, "sources": ["epl.c"]})
+    mods.append({"name": "epluser", "sources": ["epluser.c"], "depends": ["epl"]})
+    for k, a, pa, dd in list(_modules(p, ("apps",)))[:2]:
+        kk = "selects" if "selects" in a or "depends" not in a else "depends"
+        a[kk] = ["epluser"] + list(a.get(kk) or [])
+
+
 def subdirs_later_doc(p, rng):
     docs = p["files"]["laze-project.yml"]
     root = docs[0]
@@ -593,7 +720,9 @@ def subdirs_later_doc(p, rng):
 
 
 SHAPES = [("p_rule_rename_chain", rule_rename_chain), ("p_ifthen_feature_cond", ifthen_feature_cond), ("p_empty_blockallow", empty_blockallow),
-          ("p_rule_export_escape", rule_export_escape), ("p_optsrc_same_guard", optsrc_same_guard), ("p_subdirs_later_doc", subdirs_later_doc), ("p_task_killed", task_killed), ("p_download_with_srcdir", download_with_srcdir), ("p_defaults_uses_removed", defaults_uses_removed), ("p_app_custom_build", app_custom_build),
+          ("p_rule_export_escape", rule_export_escape), ("p_optsrc_same_guard", optsrc_same_guard), ("p_subdirs_later_doc", subdirs_later_doc), ("p_no_link_rule_builder", no_link_rule_builder), ("p_cli_define_builtin", cli_define_builtin),
+          ("p_varopts_from_chain", varopts_from_chain), ("p_defaults_other_kind_below", defaults_other_kind_below), ("p_varopts_on_builtin", varopts_on_builtin),
+          ("p_empty_patch_list", empty_patch_list), ("p_task_killed", task_killed), ("p_download_with_srcdir", download_with_srcdir), ("p_defaults_uses_removed", defaults_uses_removed), ("p_app_custom_build", app_custom_build),
           ("p_same_dldir_downloads", same_dldir_downloads), ("p_desc_with_builder", desc_with_builder), ("p_srcdir_in_root_download", srcdir_in_root_download),
           ("p_provided_name_is_module", provided_name_is_module), ("p_self_named_unique", self_named_unique), ("p_cli_comma_define", cli_comma_define), ("p_custom_build_no_out", custom_build_no_out), ("p_two_patched_downloads", two_patched_downloads), ("p_shadowed_provider", shadowed_provider),
           ("p_dup_listing", dup_listing), ("p_ctx_shuffle", ctx_shuffle), ("p_app_dup", app_dup), ("p_rule_field_variant", rule_field_variant),
